@@ -16,7 +16,7 @@ inherit <n> <m> | <oracle>
 restore <n> <8 alive bits> <8 csv fail> <8 csv tfail> | <oracle>
 floor <g> <idx:n,...|-> | <oracle>
 reload <g>/<idx:n,...|->/<new:old,...|-> ... | <oracle>     (ControlPlane.InheritDialerHealthFrom)
-handover o/<gname>/<n:name,..> ... n/<gid>/<gname>/<idx:n,..|->/<n:name,..> ... | <oracle>
+handover o/<gname>/<n:name:link,..> ... n/<gid>/<gname>/<idx:n,..|->/<n:name:link,..> ... | <oracle>
         (InheritDialerHealthFrom given both generations; the MODEL does the group-name/node-name matching)
 kcb <outbound> <typ> <alive> <isInit> <dryrun> <retired> <closed>  -> key=.. val=.. | unchanged
 wire <g> <core> <outbound> <dryrun>   (before `group g`: which core's closure the group gets)  -> ok
@@ -106,15 +106,22 @@ def parseReloadGroup? (tok : String) : Option ReloadGroup :=
     pure ⟨g, f, ps⟩
   | _ => none
 
-/-- `o/<gname>/<n:name,...|->`  or  `n/<gid>/<gname>/<idx:n,...|->/<n:name,...|->` -/
+def natTriples? (s : String) : Option (List (Nat × Nat × Nat)) :=
+  if s = "-" then some []
+  else (s.splitOn ",").mapM fun p =>
+    match p.splitOn ":" with
+    | [a, b, c] => do let a ← a.toNat?; let b ← b.toNat?; let c ← c.toNat?; pure (a, b, c)
+    | _ => none
+
+/-- `o/<gname>/<n:name:link,...|->`  or  `n/<gid>/<gname>/<idx:n,...|->/<n:name:link,...|->` -/
 def parseGen? (toks : List String) : Option (List GenGroup × List GenGroup × List (Nat × List (Nat × Nat))) :=
   toks.foldlM (fun (acc : List GenGroup × List GenGroup × List (Nat × List (Nat × Nat))) tok =>
     match tok.splitOn "/" with
     | ["o", gn, ms] => do
-      let gn ← gn.toNat?; let ms ← natPairs? ms
+      let gn ← gn.toNat?; let ms ← natTriples? ms
       pure (acc.1 ++ [⟨0, gn, ms⟩], acc.2.1, acc.2.2)
     | ["n", g, gn, fb, ms] => do
-      let g ← g.toNat?; let gn ← gn.toNat?; let fb ← natPairs? fb; let ms ← natPairs? ms
+      let g ← g.toNat?; let gn ← gn.toNat?; let fb ← natPairs? fb; let ms ← natTriples? ms
       pure (acc.1, acc.2.1 ++ [⟨g, gn, ms⟩], acc.2.2 ++ [(g, fb)])
     | _ => none) ([], [], [])
 
